@@ -284,6 +284,11 @@ def gen_ops(rng, ctx, n_ops, mix=None, depth=0):
                             'prev': rng.chance(0.3)})
             elif r < 0.8:
                 ops.append(kernel.text_one('TRACE_STRING_PROC_EXIT', rng.ident()))
+            elif r < 0.72:
+                # the end of a thread's life as the kernel logs it - and the thread id lives on (ids are reused)
+                ops.append({'k': 'seq', 'ops': [
+                    {'k': 'one', 'name': 'TRACE_DATA_THREAD_TERMINATE', 'q': 0, 'a': [ctx.tid, ctx.tid, 0, 0]},
+                    {'k': 'one', 'name': 'TRACE_DATA_THREAD_TERMINATE_PID', 'q': 0, 'a': [ctx.new_pid(), rng.word(), 0, 0]}]})
             elif r < 0.9:
                 victim = rng.pick(ctx.peers) if ctx.peers and rng.chance(0.6) else 800000 + rng.randrange(50)
                 ops.append({'k': 'one', 'name': 'TRACE_DATA_THREAD_TERMINATE', 'q': rng.pick([0, 0, 3]),
@@ -736,11 +741,13 @@ def dictionary():
 
 
 def dict_size(rng, cap):
-    """A count right at a threshold the code names (c-1, c, c+1), capped."""
-    sizes = [v for v in dictionary()['sizes'] if v + 1 <= cap]
+    """A count right at a threshold the code names (c-1, c, c+1, c+2), capped; the largest admissible threshold half the time
+    (a bound on how much is kept is usually the biggest number around)."""
+    sizes = [v for v in dictionary()['sizes'] if v + 2 <= cap]
     if not sizes:
         return None
-    return rng.pick(sizes) + rng.pick([-1, 0, 1, 1])
+    base = sizes[-1] if rng.chance(0.5) else rng.pick(sizes)
+    return base + rng.pick([-1, 0, 1, 1, 2])
 
 
 def dict_name(rng, maxlen=19, files=None):
